@@ -44,6 +44,7 @@ def main(tier, seed, args):
     nmeta = 5 if tier == 'quick' else 9
     rep.bounds = {'htlcs': '2 symbolic / 3 concrete (extra HTLCs while paying)', 'metadata': 'every byte string of length 0..%d' % nmeta,
                   'rpc_faults': '1 per run on any method (2 thorough), including inside wait_payment on the restart path',
+                  'mpp_timeout': 'symbolic 1..2^32-1 s; restart attempt time symbolic (before or after now)',
                   'fairness': 'an RPC that is retried answers without error after at most the fault budget of consecutive errors',
                   'outside': 'JSON layer of on_htlc_accepted; panics inside library code summarised by contracts'}
     rep.assumptions = ['single HTLC amount <= money supply', 'node + tokio contracts', 'timers eventually fire (quiescent states have no armed timer)']
@@ -61,6 +62,14 @@ def main(tier, seed, args):
     configs.append(('rpc faults[1 htlc, free]', cfg, pc, mons(Coverage(['fault', 'response:Fail(2002)'])), {}))
     cfg, pc = cfg_concrete([1006000], store='pending', faults=faults, fault_methods=allm, fault_codes=((-1, 'Rpc'), (None, 'General')))
     configs.append(('rpc faults[1 htlc, restart]', cfg, pc, mons(Coverage(['fault'])), {}))
+    # last clause: HTLCs of a set that never completes are answered no later than one MPP timeout after the stored
+    # state was read -- first arrival (Free) and restart with an interrupted, dead attempt whose recorded time is
+    # symbolic (before or after the current clock)
+    from .c11 import cfg_partial, TimeoutMonitor, DeadOldParts
+    cfg, pc = cfg_partial(2, False)
+    configs.append(('never complete[2 htlcs, free]', cfg, pc, mons(TimeoutMonitor(False), Coverage(['timer', 'response:Fail(2019)'])), {}))
+    cfg, pc = cfg_partial(1, True)
+    configs.append(('never complete[1 htlc, restart]', cfg, pc, mons(DeadOldParts(), TimeoutMonitor(True), Coverage(['timer', 'response:Fail(2019)'])), {}))
     scen_common.run_configs(rep, PID, c, configs, budget)
     if not rep.violations:
         from .c20 import run_explorer
